@@ -21,21 +21,6 @@ func (pt cfgPath) rels() relSet {
 	return out
 }
 
-// calls returns the static callee names along the path, in order.
-func (pt cfgPath) calls() []string {
-	var out []string
-	for _, b := range pt.Blocks {
-		for _, in := range b.Instrs {
-			if c, ok := in.(*ssa.Call); ok {
-				if n := calleeName(c); n != "" {
-					out = append(out, n)
-				}
-			}
-		}
-	}
-	return out
-}
-
 func (pt cfgPath) String() string {
 	s := ""
 	for i, b := range pt.Blocks {
